@@ -203,6 +203,27 @@ for _tc in range(5):
           bound='descriptor with %d tags, tag_mode %d, tag numbers < 2^14, contents length <= 2^40; callback may fail at any call' % (_tc, _tm),
           min_props=40, timeout=600, **DE)
 
+# ---------------------------------------------------------------- primitive BER/DER codec
+PR = dict(harness='harness/h_prim.c', units=[SK + 'asn_codecs_prim.c', SK + 'ber_decoder.c'], include=[], backends=['sat'])
+PRC = ['--unwindset', 'ber_fetch_length.0:16,ber_fetch_tag.0:16', '--malloc-may-fail', '--malloc-fail-null', '--memory-leak-check']
+O(id='ber_decode_primitive.b14', props=['C04', 'C05', 'C14', 'C15'], kind='bounded', entry='h_ber_decode_primitive',
+  functions=['ber_decode_primitive', 'ber_check_tags', 'ber_fetch_tag', 'ber_fetch_length', 'ASN__PRIMITIVE_TYPE_free'],
+  unwind=18, cbmc=PRC, bound='every input of at most 14 octets, descriptors with 1..3 arbitrary tags, tag_mode -1/0/1; every allocation may fail',
+  trusted=['ASN__STACK_OVERFLOW_CHECK: compares addresses of different objects; evaluated by CBMC as-is with max_stack_size 0 (check disabled)'],
+  min_props=100, timeout=900, **PR)
+O(id='ber_decode_primitive.prefix', props=['C05'], kind='bounded', entry='h_ber_decode_primitive_prefix',
+  functions=['ber_decode_primitive', 'ber_check_tags'], unwind=18, cbmc=['--unwindset', 'ber_fetch_length.0:16,ber_fetch_tag.0:16', '--no-malloc-may-fail'],
+  bound='every input of at most 14 octets and every cut point, 1..2 tags', min_props=100, timeout=900, **PR)
+PRC0 = ['--unwindset', 'ber_fetch_length.0:16,ber_fetch_tag.0:16']
+for _nt in (1, 2):
+    O(id='prim_der_roundtrip.t%d' % _nt, props=['C01', 'C07'], kind='bounded', entry='h_prim_roundtrip', defines=['VF_NTAGS=%d' % _nt],
+      functions=['der_encode_primitive', 'der_write_tags', 'ber_decode_primitive', 'ber_check_tags'], unwind=18, cbmc=PRC0,
+      bound='contents of at most 6 octets, %d tag(s) with numbers < 128; callback may fail at any call' % _nt, min_props=100, timeout=900, **PR)
+O(id='der_encode_primitive.malformed', props=['C07'], kind='bounded', entry='h_der_encode_primitive_malformed', functions=['der_encode_primitive'],
+  unwind=42, cbmc=PRC, bound='structures with NULL / non-NULL buffer and size 0..4', min_props=50, **PR)
+O(id='ASN__PRIMITIVE_TYPE_free', props=['C14'], kind='width', entry='h_prim_free', functions=['ASN__PRIMITIVE_TYPE_free'], proves=['ASN__PRIMITIVE_TYPE_free'],
+  unwind=4, cbmc=['--memory-leak-check'], bound='all three free methods, with and without a buffer (loop-free)', min_props=20, **PR)
+
 UNVERIFIED = {
  'C07': ['asn_encode_to_buffer / asn_encode_to_new_buffer / uper_encode_to_buffer / uper_encode_to_new_buffer with a UPER type encoder: obligations exist (tier experimental) but do not discharge (symbolic-length memcpy of the 32-octet bit scratch space runs out of memory); asn_encode with UPER is covered',
          'every constructed / generated type encoder is assumed to follow the operation-slot convention enumerated by the stub encoder',
